@@ -397,14 +397,16 @@ class TransactionManager(Elaboratable):
 
         # step 1: simultaneous and independent sets generation
         independents = defaultdict[TBody, set[TBody]](set)
+        # Callers of a nonexclusive method can run as one transaction. They are not joined by transitivity,
+        # but can be required to be simultaneous.
+        weak_independents = defaultdict[TBody, set[TBody]](set)
 
         for elem in method_map.methods_and_transactions:
             indeps = [frozenset(method_map.transactions_for(ind)) for ind in chain([elem], elem.independent_list)]
             for k1, k2 in product(range(len(indeps)), repeat=2):
-                if k1 == 0 and k2 == 0 and elem.nonexclusive:
-                    continue  # callers of a nonexclusive method can run as one transaction
+                table = weak_independents if k1 == 0 and k2 == 0 and elem.nonexclusive else independents
                 for transaction1, transaction2 in product(indeps[k1], indeps[k2]):
-                    independents[transaction1].add(transaction2)
+                    table[transaction1].add(transaction2)
 
         simultaneous = set[frozenset[TBody]]()
 
@@ -429,7 +431,15 @@ class TransactionManager(Elaboratable):
         tr_simultaneous = set[frozenset[TBody]]()
 
         def conflicting(group: frozenset[TBody]):
-            return any(tr1 != tr2 and tr1 in independents[tr2] for tr1 in group for tr2 in group)
+            return any(
+                tr1 != tr2
+                and (
+                    tr1 in independents[tr2]
+                    or (tr1 in weak_independents[tr2] and frozenset({tr1, tr2}) not in simultaneous)
+                )
+                for tr1 in group
+                for tr2 in group
+            )
 
         q = deque[frozenset[TBody]](simultaneous)
 
